@@ -18,6 +18,7 @@
     sub_attrs_not_extracted wide_of_plain identity_transparent_msg_reorder
     translate_format_id_brackets msg_identity_brackets msg_identity_elem_brackets brackets_of_clean
     placeholder_text_straddles msg_element_first_child_mismatch
+    code_call_reported code_literal_call_reported code_reported_is_call code_reported_exactly nested_call_was_missed
 -/
 import Genshi.Lemmas.I18nTree
 import Genshi.Lemmas.I18nStarts
@@ -28,6 +29,7 @@ import Genshi.Lemmas.I18nLookups2
 import Genshi.Lemmas.I18nLookups3
 import Genshi.Lemmas.I18nChooseLookup
 import Genshi.Lemmas.I18nCode
+import Genshi.Lemmas.I18nPyExpr
 import Genshi.Lemmas.I18nPassEq
 import Genshi.Lemmas.I18nPassReorder
 import Genshi.Model.I18nExtract
@@ -327,6 +329,75 @@ example :
        .expr 1 [⟨['_'], .one (some ['S'])⟩], .end_ ⟨[], ['s','c','r','i','p','t']⟩] =
       [⟨['_'], .one (some ['W'])⟩, ⟨['_'], .one (some ['T'])⟩, ⟨['_'], .one (some ['A'])⟩, ⟨['_'], .one (some ['S'])⟩] := by
   refine ⟨by decide +kernel, by decide +kernel⟩
+
+
+/-! ### `extract_from_code`: what an EXPR / EXEC event carries
+
+`code_calls_extracted` takes the list an expression carries as given; the theorems below are
+about the function that computes it (model `extractFromCode` over the syntax tree `PyExpr`,
+`Genshi/Model/I18nPyExpr.lean`, compared with the real `extract_from_code` on the trees genshi
+builds: correspondence stream `pycode`). -/
+
+/-- **every gettext call of the code is reported** (`extract_from_code`, as repaired by fix
+    fbd47f1): a call `f(args…, kw=…)` of a plain name `f` among the gettext functions,
+    occurring ANYWHERE in the expression or code block — also inside the arguments of another
+    gettext call — is reported as `(f, strings)` with one entry per positional argument: the
+    text of a string (or utf-8 bytes) literal, `None` for anything else; a single entry bare,
+    otherwise a tuple. -/
+theorem code_call_reported (gf : List Str) (e : PyExpr) (f : Str) (args kws : List PyExpr)
+    (hs : SubExpr (.call (.name f) args kws) e) (hf : f ∈ gf) :
+    ⟨f, argVal args⟩ ∈ extractFromCode gf e :=
+  Genshi.I18n.code_call_reported gf e f args kws hs hf
+
+/-- `ngettext('a', 'b', len(_('U')))`: the inner call is a sub-expression and `_` a gettext function -/
+example : SubExpr (.call (.name ['_']) [.str ['U']] [])
+      (.call (.name ['n','g','e','t','t','e','x','t'])
+        [.str ['a'], .str ['b'], .call (.name ['l','e','n']) [.call (.name ['_']) [.str ['U']] []] []] []) ∧
+    ['_'] ∈ Gen.I18n.gettextFunctions ∧ argVal [.str ['U']] = .one (some ['U']) :=
+  ⟨SubExpr.arg _ _ (a := .call (.name ['l','e','n']) [.call (.name ['_']) [.str ['U']] []] []) (by simp)
+     (SubExpr.arg _ _ (List.mem_singleton.2 rfl) (SubExpr.refl _)), by decide, by decide⟩
+
+/-- … and when all positional arguments are string literals the reported value holds exactly
+    those strings, in order. -/
+theorem code_literal_call_reported (gf : List Str) (e : PyExpr) (f : Str) (ss : List Str)
+    (kws : List PyExpr) (hs : SubExpr (.call (.name f) (literalArgs ss) kws) e) (hf : f ∈ gf) :
+    ⟨f, match ss with | [s] => .one (some s) | _ => .many (ss.map some)⟩ ∈ extractFromCode gf e :=
+  Genshi.I18n.code_literal_call_reported gf e f ss kws hs hf
+
+example : extractFromCode Gen.I18n.gettextFunctions
+    (.call (.name ['n','g','e','t','t','e','x','t']) (literalArgs [['a'], ['b']]) [.name ['n']]) =
+    [⟨['n','g','e','t','t','e','x','t'], .many [some ['a'], some ['b']]⟩] := by decide
+
+/-- **nothing else is reported**: every reported pair is the report of a call of one of the
+    gettext functions that occurs in the code. -/
+theorem code_reported_is_call (gf : List Str) (e : PyExpr) (m : CodeMsg)
+    (h : m ∈ extractFromCode gf e) :
+    ∃ args kws, SubExpr (.call (.name m.func) args kws) e ∧ m.func ∈ gf ∧ m.val = argVal args :=
+  Genshi.I18n.code_reported_is_call gf e m h
+
+example : (⟨['_'], .many []⟩ : CodeMsg) ∈
+    extractFromCode Gen.I18n.gettextFunctions (.node [.call (.name ['_']) [] [], .call (.name ['l','e','n']) [.str ['x']] []]) := by
+  decide
+
+/-- the exact answer: the calls of the gettext functions in source order (a call before the
+    calls inside it), one report per call. -/
+theorem code_reported_exactly (gf : List Str) (e : PyExpr) :
+    extractFromCode gf e = (gettextCalls gf e).map callReport :=
+  Genshi.I18n.extractFromCode_eq_gettextCalls gf e
+
+example : (gettextCalls Gen.I18n.gettextFunctions nestedExample).map Prod.fst =
+    [['n','g','e','t','t','e','x','t'], ['_']] := by decide
+
+/-- fix fbd47f1 documented: before it (`elif node._fields:`) the walk stopped at a gettext call
+    and `_('Unknown')` in `ngettext('one', 'many', len(_('Unknown')))` was not reported. -/
+theorem nested_call_was_missed :
+    (⟨['_'], .one (some ['U','n','k','n','o','w','n'])⟩ : CodeMsg) ∉
+        extractFromCodeOld Gen.I18n.gettextFunctions nestedExample ∧
+    SubExpr (.call (.name ['_']) [.str ['U','n','k','n','o','w','n']] []) nestedExample ∧
+    extractFromCode Gen.I18n.gettextFunctions nestedExample =
+      [⟨['n','g','e','t','t','e','x','t'], .many [some ['o','n','e'], some ['m','a','n','y'], none]⟩,
+       ⟨['_'], .one (some ['U','n','k','n','o','w','n'])⟩] :=
+  Genshi.I18n.nested_call_was_missed
 
 /-- **lookups_subset_extract, message directives.**  For `<t i18n:msg="ps">content</t>` whose
     content holds no nested directive — any events otherwise, any catalogue, context and skip
